@@ -120,3 +120,324 @@ Theorem c09_code_rtap_loop_exit : forall m rho tr rho2 tr2 F,
 Proof. exact code_rtap_loop_exit. Qed.
 Print Assumptions c09_code_rtap_loop_exit.
 
+(* ---- the radiotap iterator (core/radiotap/radiotap.c) AS TRANSLATED, expression by expression (Gen/Sites.v): its two routines contain `goto` and pointer increments and are the only
+   bodies not executed by the interpreter, so the tie is made per NAMED SITE - every condition, assigned value and returned value of both routines evaluates, for all values in the stated
+   ranges, to the formula Model/Radiotap.v (rt_init, ext_chain, rt_next, shift_next) uses at that step - and per SHAPE of the two switches.  A changed alignment, size, bound, mask, label
+   or load offset in the C text falsifies one of these.  Vocabulary (NEXT, INIT, holds, le16, le32, site) in Proofs/SitesRadiotapIter.v. ---- *)
+From Coq Require Import String.
+From LW Require Import Base.Bytes Base.Sweep Base.CExpr Gen.Consts Gen.Rtap Gen.Layout Gen.Sites Spec.CodeSpec Model.Radiotap Proofs.SitesLemmas Proofs.CodeIter Proofs.CodeRadiotapGen Proofs.SitesRadiotapIter.
+Local Open Scope string_scope.
+Local Open Scope Z_scope.
+Local Open Scope list_scope.
+
+(* every one of the 60 named sites of iterator_next, in order, with the lemma that evaluates it *)
+Theorem c09_code_rtnext_sites_covered : map fst NEXT =
+  [ "loop#0"; "decl:hit#0"; "decl:pad#0"; "decl:align#0"; "decl:size#0"; "decl:subns#0"      (* site_rtnext_constants *)
+  ; "if#0"; "ret#0"                                                                          (* site_rtnext_if0 *)
+  ; "if#1"                                                                                   (* site_rtnext_if1 *)
+  ; "switch#0"                                                                               (* site_rtnext_switch; rtnext_switch0_shape, _pick *)
+  ; "set:align#0"; "set:size#0"; "set:align#1"; "set:size#1"                                 (* site_rtnext_constants; rtnext_case_special_runs, _vendor_runs *)
+  ; "if#2"                                                                                   (* site_rtnext_if2_null, site_rtnext_if2 *)
+  ; "if#3"; "ret#1"                                                                          (* site_rtnext_if3 *)
+  ; "set:align#2"                                                                            (* site_rtnext_constants *)
+  ; "set:align#3"; "set:size#2"                                                              (* site_rtnext_align_size_load, _table *)
+  ; "if#4"; "set:iterator->_arg#0"; "set:iterator->current_namespace#0"                      (* site_rtnext_if4 *)
+  ; "set:pad#0"                                                                              (* site_rtnext_pad, _pad_mod, _pad_table *)
+  ; "if#5"; "upd:iterator->_arg#0"                                                           (* site_rtnext_if5_arg *)
+  ; "if#6"                                                                                   (* site_rtnext_switch *)
+  ; "if#7"; "ret#2"                                                                          (* site_rtnext_if7, site_rtnext_bounds_below_header *)
+  ; "set:oui#0"; "set:subns#0"; "set:vnslen#0"                                               (* site_rtnext_vendor_loads, site_rtnext_oui_value *)
+  ; "set:iterator->_next_ns_data#0"; "if#8"; "upd:size#0"                                    (* site_rtnext_vendor_sizes *)
+  ; "set:iterator->this_arg_index#0"; "set:iterator->this_arg#0"; "set:iterator->this_arg_size#0"; "upd:iterator->_arg#1"
+                                                                                             (* site_rtnext_this_arg *)
+  ; "if#9"; "ret#3"                                                                          (* site_rtnext_if9, site_rtnext_bounds_below_header *)
+  ; "switch#1"                                                                               (* site_rtnext_switch; rtnext_switch1_shape, _pick *)
+  ; "set:iterator->_reset_on_ext#0"; "set:iterator->is_radiotap_ns#0"; "set:iterator->this_arg_index#1"; "if#10"; "set:hit#0"
+                                                                                             (* site_rtnext_vendor_case *)
+  ; "set:iterator->_reset_on_ext#1"; "set:iterator->current_namespace#1"; "set:iterator->is_radiotap_ns#1"
+                                                                                             (* site_rtnext_rtns_case *)
+  ; "set:iterator->_bitmap_shifter#0"; "if#11"; "set:iterator->_arg_index#0"; "upd:iterator->_arg_index#0"
+  ; "set:iterator->_reset_on_ext#2"                                                          (* site_rtnext_ext_case *)
+  ; "set:hit#1"; "upd:iterator->_bitmap_shifter#0"; "upd:iterator->_arg_index#1"             (* site_rtnext_next_entry *)
+  ; "if#12"; "ret#4" ]                                                                       (* site_rtnext_if12; rtnext_after_switch1 *)
+  /\ length NEXT = 60%nat.
+Proof. exact rtnext_sites_covered. Qed.
+Print Assumptions c09_code_rtnext_sites_covered.
+
+(* every one of the 26 named sites of iterator_init *)
+Theorem c09_code_rtinit_sites_covered : map fst INIT =
+  [ "if#0"; "ret#0"                                                                          (* site_rtinit_if0 *)
+  ; "if#1"; "ret#1"                                                                          (* site_rtinit_if1 *)
+  ; "if#2"; "ret#2"                                                                          (* site_rtinit_it_len *)
+  ; "set:iterator->_rtheader#0"                                                              (* site_rtinit_pointers *)
+  ; "set:iterator->_max_length#0"                                                            (* site_rtinit_it_len *)
+  ; "set:iterator->_arg_index#0"                                                             (* site_rtinit_constants *)
+  ; "set:iterator->_bitmap_shifter#0"                                                        (* site_rtinit_present *)
+  ; "set:iterator->_arg#0"                                                                   (* site_rtinit_pointers *)
+  ; "set:iterator->_reset_on_ext#0"                                                          (* site_rtinit_constants *)
+  ; "set:iterator->_next_bitmap#0"                                                           (* site_rtinit_present *)
+  ; "set:iterator->_vns#0"; "set:iterator->current_namespace#0"                              (* site_rtinit_pointers *)
+  ; "set:iterator->is_radiotap_ns#0"                                                         (* site_rtinit_constants *)
+  ; "if#3"                                                                                   (* site_rtinit_if3 *)
+  ; "if#4"; "ret#3"                                                                          (* site_rtinit_bound *)
+  ; "loop#0"; "upd:iterator->_arg#0"                                                         (* site_rtinit_loop *)
+  ; "if#5"; "ret#4"                                                                          (* site_rtinit_bound *)
+  ; "upd:iterator->_arg#1"                                                                   (* site_rtinit_loop *)
+  ; "set:iterator->this_arg#0"                                                               (* site_rtinit_pointers *)
+  ; "ret#5" ]                                                                                (* site_rtinit_constants *)
+  /\ length INIT = 26%nat.
+Proof. exact rtinit_sites_covered. Qed.
+Print Assumptions c09_code_rtinit_sites_covered.
+
+(* what is NOT an evaluated site: the gotos, the label, the two pointer increments, the call in the while condition *)
+Theorem c09_code_rtiter_not_sites : flat_map others body_ieee80211_radiotap_iterator_next = ["GotoStmt"; "GotoStmt"; "GotoStmt"; "GotoStmt"; "increment of iterator->_next_bitmap"; "label next_entry"] /\
+  flat_map others body_ieee80211_radiotap_iterator_init = ["increment of iterator->_next_bitmap"; "call in loop condition"].
+Proof. exact rtiter_not_sites. Qed.
+Print Assumptions c09_code_rtiter_not_sites.
+
+(* the constants: returned codes, the alignment / size of the special and vendor bits, the flags set by the second switch *)
+Theorem c09_code_site_rtnext_constants : forall m rho,
+  map (fun kv => ceval rho m (site NEXT (fst kv))) rtnext_const_sites = map (fun kv => Some (snd kv)) rtnext_const_sites.
+Proof. exact site_rtnext_constants. Qed.
+Print Assumptions c09_code_site_rtnext_constants.
+
+(* the -ENOENT exit: bit 31 of the word and the shifter even *)
+Theorem c09_code_site_rtnext_if0 : forall m rho idx sh,
+  rho "iterator->_arg_index" = idx -> rho "iterator->_bitmap_shifter" = sh -> 0 <= idx < 2 ^ 31 -> 0 <= sh < 2 ^ 32 ->
+  ceval rho m (site NEXT "if#0") = Some (b2z ((idx mod 32 =? c_IEEE80211_RADIOTAP_EXT) && negb (Z.odd sh))) /\
+  ceval rho m (site NEXT "ret#0") = Some (- ENOENT).
+Proof. exact site_rtnext_if0. Qed.
+Print Assumptions c09_code_site_rtnext_if0.
+
+(* argument not present *)
+Theorem c09_code_site_rtnext_if1 : forall m rho sh,
+  rho "iterator->_bitmap_shifter" = sh -> 0 <= sh < 2 ^ 32 ->
+  ceval rho m (site NEXT "if#1") = Some (b2z (negb (Z.odd sh))).
+Proof. exact site_rtnext_if1. Qed.
+Print Assumptions c09_code_site_rtnext_if1.
+
+(* both switches and the vendor test select on idx mod 32 *)
+Theorem c09_code_site_rtnext_switch : forall m rho idx,
+  rho "iterator->_arg_index" = idx -> 0 <= idx < 2 ^ 31 ->
+  ceval rho m (site NEXT "switch#0") = Some (idx mod 32) /\
+  ceval rho m (site NEXT "switch#1") = Some (idx mod 32) /\
+  ceval rho m (site NEXT "if#6") = Some (b2z (idx mod 32 =? c_IEEE80211_RADIOTAP_VENDOR_NAMESPACE)).
+Proof. exact site_rtnext_switch. Qed.
+Print Assumptions c09_code_site_rtnext_switch.
+
+(* first switch: 29 and 31 share align 1 / size 0, 30 has align 2 / size 6, the default consults the namespace table *)
+Theorem c09_code_rtnext_switch0_shape : rtnext_switch0 = SSwitch "switch#0" (site NEXT "switch#0")
+                     [([29; 31], rtnext_case_special); ([30], rtnext_case_vendor)] rtnext_case_default.
+Proof. exact rtnext_switch0_shape. Qed.
+Print Assumptions c09_code_rtnext_switch0_shape.
+
+(* which case each value picks *)
+Theorem c09_code_rtnext_switch0_pick : forall v,
+  pick_case v [([29; 31], rtnext_case_special); ([30], rtnext_case_vendor)] rtnext_case_default =
+  if (v =? c_IEEE80211_RADIOTAP_RADIOTAP_NAMESPACE) || (v =? c_IEEE80211_RADIOTAP_EXT) then rtnext_case_special
+  else if v =? c_IEEE80211_RADIOTAP_VENDOR_NAMESPACE then rtnext_case_vendor else rtnext_case_default.
+Proof. exact rtnext_switch0_pick. Qed.
+Print Assumptions c09_code_rtnext_switch0_pick.
+
+(* alignment and size are the low / high nibble of the table byte loaded at align_size + idx = Model table_entry *)
+Theorem c09_code_site_rtnext_align_size_table : forall m rho ns idx T,
+  rho "iterator->current_namespace" = ns -> rho "iterator->_arg_index" = idx ->
+  0 <= ns < 2 ^ 62 -> 0 <= idx < rtap_n_bits -> load_le m ns 8 = Some T -> 0 <= T < 2 ^ 62 ->
+  table_at m T (fun k => fst (table_entry k)) (fun k => snd (table_entry k)) ->
+  ceval rho m (site NEXT "set:align#3") = Some (fst (table_entry idx)) /\
+  ceval rho m (site NEXT "set:size#2") = Some (snd (table_entry idx)).
+Proof. exact site_rtnext_align_size_table. Qed.
+Print Assumptions c09_code_site_rtnext_align_size_table.
+
+(* the padding mask equals (arg - header) mod align for every table entry *)
+Theorem c09_code_site_rtnext_pad_table : forall m rho h a idx,
+  rho "iterator->_rtheader" = h -> rho "iterator->_arg" = h + a -> rho "align" = fst (table_entry idx) ->
+  0 <= h -> 0 <= a -> h + a < 2 ^ 64 -> 0 <= idx < rtap_n_bits ->
+  ceval rho m (site NEXT "set:pad#0") = Some (a mod fst (table_entry idx)).
+Proof. exact site_rtnext_pad_table. Qed.
+Print Assumptions c09_code_site_rtnext_pad_table.
+
+(* the argument pointer advances by align - pad *)
+Theorem c09_code_site_rtnext_if5_arg : forall m rho h a al pad,
+  rho "iterator->_arg" = h + a -> rho "align" = al -> rho "pad" = pad ->
+  0 <= h -> 0 <= a -> h + a < 2 ^ 62 -> 0 <= pad < al -> al < 2 ^ 31 ->
+  ceval rho m (site NEXT "if#5") = Some pad /\
+  ceval rho m (site NEXT "upd:iterator->_arg#0") = Some (h + (a + (al - pad))).
+Proof. exact site_rtnext_if5_arg. Qed.
+Print Assumptions c09_code_site_rtnext_if5_arg.
+
+(* vendor header must fit: -EINVAL when arg + size exceeds the stated length *)
+Theorem c09_code_site_rtnext_if7 : forall m rho h a sz mx,
+  rho "iterator->_rtheader" = h -> rho "iterator->_arg" = h + a -> rho "size" = sz -> rho "iterator->_max_length" = mx ->
+  0 <= h -> 0 <= a -> h + a < 2 ^ 62 -> 0 <= sz < 2 ^ 31 -> 0 <= mx < 2 ^ 31 ->
+  ceval rho m (site NEXT "if#7") = Some (b2z (mx <? a + sz)) /\ ceval rho m (site NEXT "ret#2") = Some (- EINVAL).
+Proof. exact site_rtnext_if7. Qed.
+Print Assumptions c09_code_site_rtnext_if7.
+
+(* argument must fit *)
+Theorem c09_code_site_rtnext_if9 : forall m rho h a mx,
+  rho "iterator->_rtheader" = h -> rho "iterator->_arg" = h + a -> rho "iterator->_max_length" = mx ->
+  0 <= h -> 0 <= a -> h + a < 2 ^ 64 -> 0 <= mx < 2 ^ 31 ->
+  ceval rho m (site NEXT "if#9") = Some (b2z (mx <? a)) /\ ceval rho m (site NEXT "ret#3") = Some (- EINVAL).
+Proof. exact site_rtnext_if9. Qed.
+Print Assumptions c09_code_site_rtnext_if9.
+
+(* OUI, sub-namespace and skip length are the octets at arg .. arg + 5 *)
+Theorem c09_code_site_rtnext_vendor_loads : forall m rho h buf a,
+  holds m h buf -> wfbytes buf -> rho "iterator->_arg" = h + a ->
+  0 <= h -> 0 <= a -> h + a < 2 ^ 62 -> a + 6 <= zlen buf ->
+  ceval rho m (site NEXT "set:oui#0") = Some (Z.lor (Z.lor (znth buf a * 2 ^ 16) (znth buf (a + 1) * 2 ^ 8)) (znth buf (a + 2))) /\
+  ceval rho m (site NEXT "set:subns#0") = Some (znth buf (a + 3)) /\
+  ceval rho m (site NEXT "set:vnslen#0") = Some (le16 buf (a + 4)).
+Proof. exact site_rtnext_vendor_loads. Qed.
+Print Assumptions c09_code_site_rtnext_vendor_loads.
+
+(* next namespace data = arg + size + skip length; the size grows by the skip length when no namespace is registered *)
+Theorem c09_code_site_rtnext_vendor_sizes : forall m rho h a sz vl ns,
+  rho "iterator->_arg" = h + a -> rho "size" = sz -> rho "vnslen" = vl -> rho "iterator->current_namespace" = ns ->
+  0 <= h -> 0 <= a -> h + a < 2 ^ 62 -> 0 <= sz < 2 ^ 30 -> 0 <= vl < 2 ^ 16 -> 0 <= ns < 2 ^ 64 ->
+  ceval rho m (site NEXT "set:iterator->_next_ns_data#0") = Some (h + (a + sz + vl)) /\
+  ceval rho m (site NEXT "if#8") = Some (b2z (ns =? 0)) /\
+  ceval rho m (site NEXT "upd:size#0") = Some (sz + vl).
+Proof. exact site_rtnext_vendor_sizes. Qed.
+Print Assumptions c09_code_site_rtnext_vendor_sizes.
+
+(* what is reported: index, pointer, size; the pointer then advances by size *)
+Theorem c09_code_site_rtnext_this_arg : forall m rho h a sz idx,
+  rho "iterator->_arg" = h + a -> rho "size" = sz -> rho "iterator->_arg_index" = idx ->
+  0 <= h -> 0 <= a -> h + a < 2 ^ 62 -> 0 <= sz < 2 ^ 31 -> - 2 ^ 31 <= idx < 2 ^ 31 ->
+  ceval rho m (site NEXT "set:iterator->this_arg_index#0") = Some idx /\
+  ceval rho m (site NEXT "set:iterator->this_arg#0") = Some (h + a) /\
+  ceval rho m (site NEXT "set:iterator->this_arg_size#0") = Some sz /\
+  ceval rho m (site NEXT "upd:iterator->_arg#1") = Some (h + (a + sz)).
+Proof. exact site_rtnext_this_arg. Qed.
+Print Assumptions c09_code_site_rtnext_this_arg.
+
+(* second switch: the statements of cases 30, 29, 31 and of the default with the label next_entry *)
+Theorem c09_code_rtnext_switch1_shape : rtnext_switch1 = SSwitch "switch#1" (site NEXT "switch#1")
+                     [([30], rtnext_case2_vendor); ([29], rtnext_case2_rtns); ([31], rtnext_case2_ext)] rtnext_case2_default.
+Proof. exact rtnext_switch1_shape. Qed.
+Print Assumptions c09_code_rtnext_switch1_shape.
+
+(* case 30 *)
+Theorem c09_code_site_rtnext_vendor_case : forall m rho ns,
+  rho "iterator->current_namespace" = ns -> 0 <= ns < 2 ^ 64 ->
+  ceval rho m (site NEXT "set:iterator->_reset_on_ext#0") = Some 1 /\
+  ceval rho m (site NEXT "set:iterator->is_radiotap_ns#0") = Some 0 /\
+  ceval rho m (site NEXT "set:iterator->this_arg_index#1") = Some c_IEEE80211_RADIOTAP_VENDOR_NAMESPACE /\
+  ceval rho m (site NEXT "if#10") = Some (b2z (ns =? 0)) /\
+  ceval rho m (site NEXT "set:hit#0") = Some 1.
+Proof. exact site_rtnext_vendor_case. Qed.
+Print Assumptions c09_code_site_rtnext_vendor_case.
+
+(* case 29 *)
+Theorem c09_code_site_rtnext_rtns_case : forall m rho rns,
+  rho "&radiotap_ns" = rns -> 0 <= rns < 2 ^ 64 ->
+  ceval rho m (site NEXT "set:iterator->_reset_on_ext#1") = Some 1 /\
+  ceval rho m (site NEXT "set:iterator->current_namespace#1") = Some rns /\
+  ceval rho m (site NEXT "set:iterator->is_radiotap_ns#1") = Some 1.
+Proof. exact site_rtnext_rtns_case. Qed.
+Print Assumptions c09_code_site_rtnext_rtns_case.
+
+(* case 31: next present word loaded little-endian at _next_bitmap; index reset or incremented *)
+Theorem c09_code_site_rtnext_ext_case : forall m rho h buf nb rs idx,
+  holds m h buf -> wfbytes buf -> rho "iterator->_next_bitmap" = h + nb -> rho "iterator->_reset_on_ext" = rs ->
+  rho "iterator->_arg_index" = idx ->
+  0 <= h -> 0 <= nb -> h + nb < 2 ^ 62 -> nb + 4 <= zlen buf -> - 2 ^ 31 <= rs < 2 ^ 31 -> - 2 ^ 31 <= idx < 2 ^ 31 - 1 ->
+  ceval rho m (site NEXT "set:iterator->_bitmap_shifter#0") = Some (le32 buf nb) /\
+  ceval rho m (site NEXT "if#11") = Some rs /\
+  ceval rho m (site NEXT "set:iterator->_arg_index#0") = Some 0 /\
+  ceval rho m (site NEXT "upd:iterator->_arg_index#0") = Some (idx + 1) /\
+  ceval rho m (site NEXT "set:iterator->_reset_on_ext#2") = Some 0.
+Proof. exact site_rtnext_ext_case. Qed.
+Print Assumptions c09_code_site_rtnext_ext_case.
+
+(* default and next_entry: hit; shifter >> 1, index + 1 (the model's shift_next) *)
+Theorem c09_code_site_rtnext_next_entry : forall m rho sh idx,
+  rho "iterator->_bitmap_shifter" = sh -> rho "iterator->_arg_index" = idx ->
+  0 <= sh < 2 ^ 32 -> - 2 ^ 31 <= idx < 2 ^ 31 - 1 ->
+  ceval rho m (site NEXT "set:hit#1") = Some 1 /\
+  ceval rho m (site NEXT "upd:iterator->_bitmap_shifter#0") = Some (Z.shiftr sh 1) /\
+  ceval rho m (site NEXT "upd:iterator->_arg_index#1") = Some (idx + 1).
+Proof. exact site_rtnext_next_entry. Qed.
+Print Assumptions c09_code_site_rtnext_next_entry.
+
+(* a hit returns 0 *)
+Theorem c09_code_site_rtnext_if12 : forall m rho hit,
+  rho "hit" = hit -> - 2 ^ 31 <= hit < 2 ^ 31 ->
+  ceval rho m (site NEXT "if#12") = Some hit /\ ceval rho m (site NEXT "ret#4") = Some 0.
+Proof. exact site_rtnext_if12. Qed.
+Print Assumptions c09_code_site_rtnext_if12.
+
+(* init: max_length < 8 refused *)
+Theorem c09_code_site_rtinit_if0 : forall m rho mx,
+  rho "max_length" = mx -> - 2 ^ 31 <= mx < 2 ^ 31 ->
+  ceval rho m (site INIT "if#0") = Some (b2z (mx <? sizeof_ieee80211_radiotap_header)) /\
+  ceval rho m (site INIT "ret#0") = Some (- EINVAL).
+Proof. exact site_rtinit_if0. Qed.
+Print Assumptions c09_code_site_rtinit_if0.
+
+(* init: version must be 0 *)
+Theorem c09_code_site_rtinit_if1 : forall m rho ver,
+  rho "radiotap_header->it_version" = ver -> 0 <= ver < 256 ->
+  ceval rho m (site INIT "if#1") = Some ver /\ ceval rho m (site INIT "ret#1") = Some (- EINVAL).
+Proof. exact site_rtinit_if1. Qed.
+Print Assumptions c09_code_site_rtinit_if1.
+
+(* init: it_len little-endian at header + 2, refused when above max_length; becomes _max_length *)
+Theorem c09_code_site_rtinit_it_len : forall m rho h buf mx,
+  holds m h buf -> wfbytes buf -> rho "&radiotap_header->it_len" = h + off_ieee80211_radiotap_header__it_len ->
+  rho "max_length" = mx -> 0 <= h < 2 ^ 62 -> 4 <= zlen buf -> - 2 ^ 31 <= mx < 2 ^ 31 ->
+  ceval rho m (site INIT "if#2") = Some (b2z (mx <? le16 buf 2)) /\
+  ceval rho m (site INIT "ret#2") = Some (- EINVAL) /\
+  ceval rho m (site INIT "set:iterator->_max_length#0") = Some (le16 buf 2).
+Proof. exact site_rtinit_it_len. Qed.
+Print Assumptions c09_code_site_rtinit_it_len.
+
+(* init: first present word little-endian at header + 4 *)
+Theorem c09_code_site_rtinit_present : forall m rho h buf,
+  holds m h buf -> wfbytes buf -> rho "&radiotap_header->it_present" = h + off_ieee80211_radiotap_header__it_present ->
+  0 <= h < 2 ^ 62 -> 8 <= zlen buf ->
+  ceval rho m (site INIT "set:iterator->_bitmap_shifter#0") = Some (le32 buf 4) /\
+  ceval rho m (site INIT "set:iterator->_next_bitmap#0") = Some (h + 4).
+Proof. exact site_rtinit_present. Qed.
+Print Assumptions c09_code_site_rtinit_present.
+
+(* init: _arg = header + 8, namespace &radiotap_ns *)
+Theorem c09_code_site_rtinit_pointers : forall m rho h vns rns arg,
+  rho "radiotap_header" = h -> rho "vns" = vns -> rho "&radiotap_ns" = rns -> rho "iterator->_arg" = arg ->
+  0 <= h < 2 ^ 62 -> 0 <= vns < 2 ^ 64 -> 0 <= rns < 2 ^ 64 -> 0 <= arg < 2 ^ 64 ->
+  ceval rho m (site INIT "set:iterator->_rtheader#0") = Some h /\
+  ceval rho m (site INIT "set:iterator->_arg#0") = Some (h + sizeof_ieee80211_radiotap_header) /\
+  ceval rho m (site INIT "set:iterator->_vns#0") = Some vns /\
+  ceval rho m (site INIT "set:iterator->current_namespace#0") = Some rns /\
+  ceval rho m (site INIT "set:iterator->this_arg#0") = Some arg.
+Proof. exact site_rtinit_pointers. Qed.
+Print Assumptions c09_code_site_rtinit_pointers.
+
+(* init: EXT bit test *)
+Theorem c09_code_site_rtinit_if3 : forall m rho sh,
+  rho "iterator->_bitmap_shifter" = sh -> 0 <= sh < 2 ^ 32 ->
+  ceval rho m (site INIT "if#3") = Some (Z.land sh bit31).
+Proof. exact site_rtinit_if3. Qed.
+Print Assumptions c09_code_site_rtinit_if3.
+
+(* init: each further present word must fit *)
+Theorem c09_code_site_rtinit_bound : forall m rho h a mx,
+  rho "iterator->_rtheader" = h -> rho "iterator->_arg" = h + a -> rho "iterator->_max_length" = mx ->
+  0 <= h -> 0 <= a -> h + a < 2 ^ 62 -> 0 <= mx < 2 ^ 31 ->
+  ceval rho m (site INIT "if#4") = Some (b2z (mx <? a + 4)) /\ ceval rho m (site INIT "ret#3") = Some (- EINVAL) /\
+  ceval rho m (site INIT "if#5") = Some (b2z (mx <? a + 4)) /\ ceval rho m (site INIT "ret#4") = Some (- EINVAL).
+Proof. exact site_rtinit_bound. Qed.
+Print Assumptions c09_code_site_rtinit_bound.
+
+(* init: the chain continues while bit 31 of the word at _arg is set; steps of 4 *)
+Theorem c09_code_site_rtinit_loop : forall m rho h buf a,
+  holds m h buf -> wfbytes buf -> rho "iterator->_arg" = h + a ->
+  0 <= h -> 0 <= a -> h + a < 2 ^ 62 -> a + 4 <= zlen buf ->
+  ceval rho m (site INIT "loop#0") = Some (Z.land (le32 buf a) bit31) /\
+  ceval rho m (site INIT "upd:iterator->_arg#0") = Some (h + (a + 4)) /\
+  ceval rho m (site INIT "upd:iterator->_arg#1") = Some (h + (a + 4)).
+Proof. exact site_rtinit_loop. Qed.
+Print Assumptions c09_code_site_rtinit_loop.
+
